@@ -73,13 +73,19 @@ fn check_utf16_lossy(units: &[u16], le: bool, tail: Option<u8>) -> Result<(), St
     Ok(())
 }
 
+/// the scalar sits at a position of its line that depends on its value (0..15 ASCII characters before it), so
+/// that position-dependent decoding (blocks of 4 / 8 / 16 units) meets every scalar range at every offset
+fn scalar_pad(c: char) -> &'static str {
+    &"abcdefghijklmnop"[..(c as usize) % 16]
+}
 fn scalar_text(c: char) -> String {
-    format!("osu file format v14\n\n[Metadata]\nTitle: a{c}b\nArtist: x\n\n[General]\nMode: 2\n")
+    // (16 ASCII characters follow, so that the scalar is never in the last, incomplete block of its line)
+    format!("osu file format v14\n\n[Metadata]\nTitle: {}a{c}bcdefghijklmnopq\nArtist: x\n\n[General]\nMode: 2\n", scalar_pad(c))
 }
 
 fn check_scalar(c: char) -> Result<(), String> {
     let text = scalar_text(c);
-    let want = format!("a{c}b");
+    let want = format!("{}a{c}bcdefghijklmnopq", scalar_pad(c));
     for enc in ENCS {
         let m = dec_bytes(&encode_text(&text, enc))?;
         // whitespace-class scalars in the middle of a value are kept; the value is only trimmed at its ends
@@ -130,7 +136,7 @@ pub fn run(ctx: &mut Ctx) {
     let all: Vec<u32> = if ctx.tier == Tier::Thorough {
         (0..=0x10FFFFu32).filter(|c| char::from_u32(*c).is_some() && *c != 0x0A).collect()
     } else {
-        let mut v: Vec<u32> = (0..=0x10FFFFu32).filter(|c| char::from_u32(*c).map_or(false, |ch| *c != 0x0A && (has_0a_unit(ch) || *c < 0x100))).collect();
+        let mut v: Vec<u32> = (0..=0x10FFFFu32).filter(|c| char::from_u32(*c).map_or(false, |ch| *c != 0x0A && (has_0a_unit(ch) || *c < 0x100 || (0x7F00..=0x8100).contains(c) || (0xD700..=0xD7FF).contains(c) || (0xE000..=0xE0FF).contains(c) || (0xFF00..=0xFFFF).contains(c) || (0x10000..=0x100FF).contains(c)))).collect();
         let mut x: u64 = 0x9E3779B97F4A7C15 ^ ctx.seed;
         for _ in 0..50_000 {
             x ^= x << 13;
